@@ -231,11 +231,12 @@ def r07b(R):
     pc = A.func(PARAMH, 'param_color')
     ok = False
     for n in walk_own(pc.node):
-        if isinstance(n, ast.ListComp) and isinstance(n.elt, ast.Call) \
-                and 'param_helper.param_16' in A.callee_names(pc, n.elt) \
-                and norm(n.generators[0].iter) == pc.params[0] \
-                and not n.generators[0].ifs:
-            ok = True
+        if isinstance(n, ast.Return) and n.value is not None:
+            got = A.whole_map(pc, n.value)
+            ok = got is not None and isinstance(got[1], ast.Call) \
+                and 'param_helper.param_16' in A.callee_names(pc, got[1]) \
+                and norm(got[0]) == pc.params[0] \
+                and [norm(a) for a in got[1].args] == [got[2]]
     R.check(pc, 'param_16 over every component', ok,
             'param_color no longer clamps every component with param_16')
     sr = A.func(MATRIX, 'ColorMatrix._standardize_raw')
